@@ -106,10 +106,15 @@ def glslFilter : Name → Name → Name
       let buf := if !buf.isEmpty && !endsWith_ buf then buf ++ ['_'] else buf
       glslFilter rest (buf ++ escapeChar r)
 
+/-- Names starting with the reserved prefix `gl_` (and the bare `gl`, whose collision-suffixed
+forms are `gl_1`, …) are prefixed with `gen_` (fix 2cb9fba). -/
+def glslReservedPrefix (r : Name) : Bool := r == "gl".toList || "gl_".toList.isPrefixOf r
+
 def glslSanitize (name : Name) : Name :=
   if name.isEmpty then unnamed else
   let r := trimTrailingUnderscores (glslFilter (dropLeadingDigits name) [])
-  if r.isEmpty then unnamed else r
+  if r.isEmpty then unnamed else
+  if glslReservedPrefix r then "gen_".toList ++ r else r
 
 /-! ### `call` -/
 
